@@ -260,7 +260,7 @@ class RecordingCheck(PropertyCheck):
         terms, descr = [], []
         try:
             rl.quiet()
-            for name in rl.WORKLOADS:
+            for name in rl.MODELLED_WORKLOADS:
                 for bodies in ([rl.LEAF_V1[name]], [rl.LEAF_V1[name], rl.LEAF_V2[name]],
                                [rl.LEAF_V1[name], rl.LEAF_V1[name], rl.LEAF_V2[name]]):
                     t, d = self.trace_case(name, bodies, work)
